@@ -10,6 +10,7 @@ that does not fit, or a negative difference, is `none`.
 No Mathlib import.
 -/
 import Ymq.Model.SiqsPoly
+import Ymq.Gen.Primality
 
 namespace Ymq.MpqsPoly
 open Ymq.SiqsPoly (invMod chk256 wrap256 bitlen Prime)
@@ -137,5 +138,36 @@ def preparePrime (pol : Poly) (p r dinv : Nat) (offset : Int) : Option (Nat × N
 /-- specification of one entry of `Workspace::batch_inversion`: the inverse of `d` modulo `p`,
 0 when `p ∣ d` -/
 def dinvModp (d p : Nat) : Nat := (invMod (d % p) p).getD 0
+
+/-! ### sieve_for_polys -/
+
+/-- `while k > zero { … }` of `arith::pow_mod` (`U256`; operands below `2^128`, no overflow) -/
+def powModAux : Nat → Nat → Nat → Nat → Nat → Nat
+  | 0, res, _, _, _ => res
+  | f + 1, res, nn, k, p =>
+    if k = 0 then res
+    else powModAux f (if k % 2 = 1 then res * nn % p else res) (nn * nn % p) (k / 2) p
+
+/-- `pow_mod(n, k, p)` -/
+def powMod (n k p : Nat) : Nat := powModAux (bitlen k + 1) 1 (n % p) k p
+
+/-- position `i` of the window is marked composite by the small prime `p`: the multiples of `p` from `bmin` on
+when `bmin > p`, from `2p` on otherwise -/
+def marked (bmin i p : Nat) : Bool :=
+  (bmin + i) % p == 0 && (decide (bmin > p) || decide (bmin + i ≥ 2 * p))
+
+/-- `sieve_for_polys(n, bmin, width)`: the pairs `(D, r)` with `D = bmin + i ≡ 3 (mod 4)` not marked by a small
+prime, `gcd(n mod D, D) = 1` (`inv_mod` succeeds) and `r = (n mod D)^((D+1)/4)` a square root of `n` modulo `D` -/
+def sieveForPolys (n bmin width : Nat) : List (Nat × Nat) :=
+  (List.range width).filterMap fun i =>
+    let d := bmin + i
+    if Ymq.Gen.Primality.smallPrimes.any (marked bmin i) then none
+    else if (bmin % 4 + i) % 4 ≠ 3 then none
+    else if d = 0 then none
+    else
+      let nm := n % d
+      let r := powMod nm ((d + 1) / 4) d
+      if Nat.gcd nm d ≠ 1 then none
+      else if r * r % d = nm then some (d, r) else none
 
 end Ymq.MpqsPoly
